@@ -174,11 +174,12 @@ def _read_message(s, i, lenient):
             break
         if b"\0" in line:
             raise Invalid("NUL")
+        if first and lenient and line[:1] in (b" ", b"\t", b"\x0b", b"\x0c", b"\r"):
+            continue                                   # RFC 9112 2.2: consume whitespace-preceded lines after the start-line
+                                                       # (white space as in RFC 9112 3: SP, HTAB, VT, FF, bare CR)
         if line[:1] in (b" ", b"\t"):
-            if not lenient:
+            if not lenient or not fields:
                 raise Invalid("leading white space / obs-fold")
-            if first and not fields:
-                continue                               # RFC 9112 2.2: consume whitespace-preceded lines after the start-line
             n, v = fields[-1]                          # RFC 9112 5.2: obs-fold -> SP
             fields[-1] = (n, v + b" " + line.strip(b" \t"))
             continue
@@ -568,7 +569,7 @@ def arrival_item(a, rid):
     path = (parts[1] if len(parts) > 1 else "").encode("latin1").replace(rid.encode(), RID0.encode())
     cls = [v.encode("latin1") for n, v in a["headers"] if n.lower() == "content-length"]
     tes = [v.encode("latin1") for n, v in a["headers"] if n.lower() == "transfer-encoding"]
-    body = a["body"]
+    body = a["body"].replace(rid.encode(), RID0.encode())
     complete = True
     if tes:
         if body.startswith(b"<truncated-chunked>"):
